@@ -415,13 +415,16 @@ func (b *bridgeHist) hashesOp(variant string) *relOp {
 		start = 1 + uint64(b.lh.r.Intn(int(b.votedTip)-1))
 		hashes = [][]byte{world.Derive(1, "old", int(start))}
 		expectOK = false
+	case "empty": // passes validation: a voted proposal that changes no height
+		hashes = nil
+		expectOK = true
 	case "seventeen":
 		for len(hashes) < 17 {
 			hashes = append(hashes, world.Derive(1, "pad", len(hashes)))
 		}
 		expectOK = false
 	}
-	if len(hashes) == 0 {
+	if len(hashes) == 0 && variant != "empty" {
 		return nil
 	}
 	msg := &bitcointypes.MsgNewBlockHashes{Proposer: b.group.Proposer.AddrStr, StartBlockNumber: start, BlockHash: hashes}
@@ -446,7 +449,7 @@ func (b *bridgeHist) hashesOp(variant string) *relOp {
 			for i, hh := range hashes {
 				b.voted[start+uint64(i)] = hh
 			}
-			if start+uint64(len(hashes))-1 > b.votedTip {
+			if len(hashes) > 0 && start+uint64(len(hashes))-1 > b.votedTip {
 				b.votedTip = start + uint64(len(hashes)) - 1
 			}
 			c.Count("hash_batches_accepted", 1)
